@@ -185,6 +185,8 @@ def build_and_run(tier, seed, sanitize=False):
         env = dict(os.environ)
         env["VH_ECHO"] = "1"
         env["ASAN_OPTIONS"] = "detect_leaks=0"
+        if sanitize:
+            env["VH_NOTAIL"] = "1"
         env["VH_MAX_STEPS"] = "3000000"
         try:
             pi = subprocess.run([exe, "run", cases], stdout=subprocess.PIPE, stderr=subprocess.PIPE, text=True, errors="replace", timeout=1800, env=env)
